@@ -170,3 +170,21 @@ package core
 //@   requires b != nil
 //@   modifies nothing
 //@   ensures [C20:public-answer-is-fieldwise-the-beacon] p != nil && isnew(p) && p.Round == b.Round && p.Signature == b.Signature && p.PreviousSignature == b.PreviousSig
+
+// public stream and the client proxy used by the HTTP server: what is sent carries the packet's round, signature and
+// previous signature unchanged and randomness = SHA-256(signature)
+//@ iface (github.com/drand/drand/v2/protobuf/drand.Public_PublicRandStreamServer).Send(s, r) (err)
+//@   trusted gRPC server stream: transmits the message it is given
+//@   modifies nothing
+//@ func (*proxyStream).Send(p, b) (err)
+//@   props C01 C11
+//@   requires b != nil
+//@   call Send#0: assert [C01,C11:public-stream-item-is-the-packet-with-randomness-sha256-of-its-signature] arg1 != nil && arg1.Round == b.Round && arg1.Signature == b.Signature && arg1.PreviousSignature == b.PreviousSignature && arg1.Randomness == digest(256, b.Signature)
+
+//@ iface (github.com/drand/drand/v2/protobuf/drand.PublicServer).PublicRand(s, ctx, in) (res, err)
+//@   trusted the node's own public service (DrandDaemon.PublicRand -> BeaconProcess.PublicRand, verified under C01 / C19): a successful answer to a request for round r > 0 is round r
+//@   modifies nothing
+//@   ensures err == nil ==> res != nil && (in.Round > 0 ==> res.Round == in.Round)
+//@ func (*drandProxy).Get(d, ctx, round) (res, err)
+//@   props C01
+//@   ensures [C01:proxy-answer-is-the-requested-round-with-randomness-sha256-of-its-signature] err == nil ==> typeis(res, "*github.com/drand/drand/v2/protobuf/drand.PublicRandResponse") && as(res, "*github.com/drand/drand/v2/protobuf/drand.PublicRandResponse").Randomness == digest(256, as(res, "*github.com/drand/drand/v2/protobuf/drand.PublicRandResponse").Signature) && (round > 0 ==> as(res, "*github.com/drand/drand/v2/protobuf/drand.PublicRandResponse").Round == round)
